@@ -562,6 +562,33 @@ pub fn run(ctx: &Ctx, rep: &mut Report) {
         check_req,
     );
     ctx.prop(rep, "replies-udp", t.pick(300_000, 4_000_000), 300, outcase, check_out);
+    // UDP relay payloads up to and beyond what one UDP datagram can carry (the header builder / parser must not care)
+    const BIGDG: [usize; 12] = [65_485, 65_486, 65_497, 65_498, 65_506, 65_507, 65_508, 65_527, 65_528, 65_535, 65_536, 70_000];
+    ctx.enumerate(
+        rep,
+        "udp-large-payloads",
+        (BIGDG.len() * 4) as u64,
+        6,
+        |i| {
+            let n = BIGDG[(i % 12) as usize];
+            let data: Vec<u8> = (0..n).map(|k| (k as u32).wrapping_mul(2_654_435_761).to_le_bytes()[2]).collect();
+            let mut mapped = [0u8; 16];
+            mapped[10] = 0xff;
+            mapped[11] = 0xff;
+            mapped[12..].copy_from_slice(&[192, 0, 2, 1]);
+            match i / 12 {
+                0 => OutCase::UdpBuild { target: SockAddrS::V4([192, 0, 2, 7], 4000), data },
+                1 => OutCase::UdpBuild { target: SockAddrS::V6([0x20, 1, 0xd, 0xb8, 0, 0, 0, 0, 0, 0, 0, 0, 0, 0, 0, 9], 4000), data },
+                2 => OutCase::UdpBuild { target: SockAddrS::V6(mapped, 4000), data },
+                _ => OutCase::UdpParse { rsv: [0, 0], frag: 0, addr: Addr5S::Domain(b"big.example".to_vec()), port: 9, data, cut: None },
+            }
+        },
+        |c| {
+            let mut o = check_out(c);
+            o.nontrivial = true;
+            o
+        },
+    );
 }
 
 /// IPv6 addresses: arbitrary, and the special forms that address-handling code likes to "normalise" - unspecified, loopback,
